@@ -100,6 +100,15 @@ func runC13(c *rules.Ctx) {
 		c.VarUpdatedWhen(M+fn, "lowerbound", "_", "gt({CMP},0)", "the lower bound moves to the estimate only when the image is below the target (comparison > 0)")
 		c.OnlyWhenReturn(M+fn, "has(sdkmath.Int.Add(_,_)) | has(osmomath.BigDec.Add(_,_))", "not(lt({CMP},0)) & not(gt({CMP},0))", "an estimate is returned only when the comparison reports the tolerance met on the requested side")
 	}
+	// tolerance comparisons (three siblings): the requested side is enforced before any tolerance is consulted
+	for _, v := range [][2]string{{"ErrTolerance.Compare", "sdkmath.Int"}, {"ErrTolerance.CompareBigDec", "osmomath.BigDec"}, {"ErrTolerance.CompareDec", "sdkmath.LegacyDec"}} {
+		fn, ty := v[0], v[1]
+		if c.FnOpt(M+fn) == nil {
+			continue
+		}
+		c.WhenReturn(M+fn, "eq(e.RoundingDir,2) & "+ty+".LT(expected,actual)", 0, "-1", "rounding down requested and the image above the target: reported as too large (never accepted)")
+		c.WhenReturn(M+fn, "eq(e.RoundingDir,1) & "+ty+".GT(expected,actual)", 0, "1", "rounding up requested and the image below the target: reported as too small (never accepted)")
+	}
 	// SigFigRound must not write its argument (finding F2; shared with C12's effect analysis)
 	sp := c.P.SSAPkg("osmomath")
 	var fns []*ssa.Function
